@@ -20,52 +20,22 @@ EVENT_CLASSES = ("UnplugEvent", "PluginEvent", "RecomputeEvent")
 
 
 def event_constants(repo, attr):
-    """{class: folded constant assigned to self.<attr> in its __init__ (or class body)}"""
+    """{class: (constant held by self.<attr> after construction, where)} - decided by constant propagation through the constructor
+    chain (sa/ctoreval.py), so the constant may be a literal store, a class-level constant, or travel as an argument to the base class
+    and through a default idiom there"""
+    from ..ctoreval import attrs_after_init, UNKNOWN
     out = {}
     for cname in EVENT_CLASSES:
         ci = repo.cls(cname)
-        val, where = None, None
-        for c in repo.mro(ci):
-            init = c.methods.get("__init__")
-            if init is not None:
-                for n in walk_local(init.node):
-                    if isinstance(n, ast.Assign):
-                        for t in n.targets:
-                            if dotted(t) == f"self.{attr}":
-                                try:
-                                    val, where = const_value(n.value), (init, n)
-                                except (ValueError, TypeError):
-                                    # a class-level constant of the concrete class read through self / type(self) / cls:  kind._PRECEDENCE
-                                    v2 = None
-                                    if isinstance(n.value, ast.Attribute):
-                                        for c2 in repo.mro(ci):
-                                            if n.value.attr in c2.assigns:
-                                                try:
-                                                    v2 = const_value(c2.assigns[n.value.attr])
-                                                except (ValueError, TypeError):
-                                                    v2 = None
-                                                break
-                                            ann = [st_ for st_ in c2.node.body if isinstance(st_, ast.AnnAssign) and isinstance(st_.target, ast.Name)
-                                                   and st_.target.id == n.value.attr and st_.value is not None]
-                                            if ann:
-                                                try:
-                                                    v2 = const_value(ann[0].value)
-                                                except (ValueError, TypeError):
-                                                    v2 = None
-                                                break
-                                    if v2 is None:
-                                        raise AnalysisError(f"{cname}.{attr} is not a literal: {src(n)}")
-                                    val, where = v2, (init, n)
-            if val is None and attr in c.assigns:
-                try:
-                    val, where = const_value(c.assigns[attr]), (c, c.assigns[attr])
-                except (ValueError, TypeError):
-                    raise AnalysisError(f"{cname}.{attr} is not a literal")
-            if val is not None:
-                break
-        if val is None:
-            raise AnalysisError(f"no constant {attr} found for {cname}")
-        out[cname] = (val, where)
+        attrs = attrs_after_init(repo, ci)
+        val = attrs.get(attr, UNKNOWN)
+        if val is UNKNOWN and attr not in attrs:
+            from ..ctoreval import _class_const
+            val = _class_const(repo, ci, attr)
+        owner = next((c for c in repo.mro(ci) if "__init__" in c.methods), ci)
+        if val is UNKNOWN:
+            raise AnalysisError(f"{cname}.{attr} is not a constant after construction (constructor chain of {owner.name} not decidable)")
+        out[cname] = (val, (owner.methods.get("__init__") or next(iter(owner.methods.values())), owner.node))
     return out
 
 
@@ -473,7 +443,38 @@ def rule_loop(ck, rid="C01.R6"):
             if p == attr and k == "assign" and n in body and isinstance(n.stmt.value, ast.Call) and call_name(n.stmt.value) == "_increase_width":
                 grows.append(n)
         if not grows:
-            ck.error(rid + "g", f"no `{attr} = _increase_width(...)` in the loop body of Simulator.run (growth idiom not recognised)")
+            # growth moved into a method the body calls: it counts where the call lies on the path and the callee grows on every one of
+            # its own paths; a callee that grows only on some of its paths (say, only when a plug-in event is handled) is a growth that
+            # exists but does not lie on every path - recognised and wrong, not unrecognised
+            cond_sites = []
+            sim = repo.cls("Simulator")
+            for n, c in calls_in(fl):
+                if n not in body or not (isinstance(c.func, ast.Attribute) and dotted(c.func.value) == "self"):
+                    continue
+                m = repo.method(sim, c.func.attr, optional=True)
+                if m is None:
+                    continue
+                mfl = flow_of(inline_helpers(repo, m, depth=2))
+                st = [x for x, k, p, t_ in state_writes(mfl) if p == attr and k == "assign"]
+                if not st:
+                    continue
+                if mfl.cfg.exit not in mfl.cfg.reach(mfl.cfg.entry, avoid=set(st) | {mfl.cfg.raise_exit}):
+                    grows.append(n)
+                else:
+                    cond_sites.append((n, c, m))
+            if not grows and cond_sites:
+                n, c, m = cond_sites[0]
+                ck.violation(rid + "g", run0, c, f"{attr.split('.')[1]} is only grown inside {m.qual}, and there only on some paths: a period whose events "
+                             f"do not take that path (or a period without events) reaches {what} without the column of the current period being "
+                             "guaranteed - events added to the queue after construction, or a resumed run, index past the end of the array",
+                             sink=f"grow-every-period:{attr.split('.')[1]}")
+                continue
+            if not grows:
+                ck.error(rid + "g", f"no `{attr} = _increase_width(...)` in the loop body of Simulator.run (growth idiom not recognised)")
+                continue
+            ck.require(user not in cfg.reach(true_edge, avoid=set(grows) | {cfg.raise_exit}), rid + "g", run0, grows[0].stmt,
+                       ok=f"{attr.split('.')[1]} is grown (by a method that grows it on each of its paths) on every path before {what}",
+                       bad=f"a path through the loop body reaches {what} without growing {attr.split('.')[1]}", sink=f"grow-every-period:{attr.split('.')[1]}")
             continue
         ck.require(user not in cfg.reach(true_edge, avoid=set(grows) | {cfg.raise_exit}), rid + "g", run0, grows[0].stmt,
                    ok=f"{attr.split('.')[1]} is grown on every path before {what}",
